@@ -50,8 +50,7 @@ Record popts := POpts { o_mapway : Z (* 0 alias, 1 field name, 2 both *); o_enum
 
 (* ------------------------------------------------------------------ descriptor tree *)
 
-Inductive dval := DVInt (z : Z) (bin : list Z) | DVDouble (bits : Z) | DVStr (s : list Z) | DVBool (b : bool)
-               | DVIntLit (z : Z).   (* an integer literal given to a double / bool field (Thrift accepts it); never produced by the Go code *)
+Inductive dval := DVInt (z : Z) (bin : list Z) | DVDouble (bits : Z) | DVStr (s : list Z) | DVBool (b : bool).
 
 Record fmeta := FMeta { m_id : Z; m_name : name; m_alias : name; m_req : Z (* Required(): 0 optional, 1 default, 2 required *);
                         m_bit : Z (* bit of the requires bitmap *); m_def : option dval; m_reqbase : bool; m_respbase : bool }.
@@ -146,13 +145,21 @@ Definition desc_code (d : tdesc) : Z :=
 Definition int_binary (code : Z) (v : Z) : list Z := be_put (int_width code) (v mod 2 ^ (8 * int_width code)).
 Definition str_binary (s : list Z) : list Z := be_put 4 (Z.of_nat (length s)) ++ s.
 
+(* IEEE-754 binary64 bits of an integer of magnitude below 2^53 (exactly representable) *)
+Definition double_bits_of_int (z : Z) : Z :=
+  if z =? 0 then 0 else
+  let a := Z.abs z in
+  let e := Z.log2 a in
+  (if z <? 0 then 2 ^ 63 else 0) + (e + 1023) * 2 ^ 52 + (a * 2 ^ (52 - e) - 2 ^ 52).
+
 (* [intlit]: specification level — an integer literal is a legal default of a double or bool field; the Go code drops it *)
 Fixpoint make_default (intlit : bool) (fuel : nat) (p : program) (f : ifile) (code : Z) (c : constval) : option dval :=
   match fuel with O => None | S fuel' =>
   match c with
   | CNone | COther => None
   | CInt z => if code_is_int code then Some (DVInt z (int_binary code z))
-              else if intlit && ((code =? 4) || (code =? 2)) then Some (DVIntLit z) else None
+              else if intlit && (code =? 4) then Some (DVDouble (double_bits_of_int z))
+              else if intlit && (code =? 2) then Some (DVBool (negb (z =? 0))) else None
   | CDouble b => if code =? 4 then Some (DVDouble b) else None
   | CStr s => if code =? 11 then Some (DVStr s) else None
   | CIdent x =>
@@ -485,7 +492,6 @@ Definition ser_dval (d : option dval) : list field :=
   | Some (DVDouble bits) => [FZ 2; FZ bits]
   | Some (DVStr s) => [FZ 3; FB s; FB (str_binary s)]
   | Some (DVBool b) => [FZ 4; fbool b; FB [if b then 1 else 0]]
-  | Some (DVIntLit z) => [FZ 5; FZ z]
   end.
 
 Definition find_key_id (k : name) (keys : list (name * Z)) : Z := match assoc k (rev keys) with Some i => i | None => -1 end.
